@@ -3,6 +3,9 @@
 // type of the node:
 //
 //	A. round trip        decode(encode(v)) == v, encoding deterministic and canonical
+//	S. container sizes   (sizes.go) every collection / byte string at every boundary size x every
+//	                     encoder exit x every history of the pooled encoder buffer, against an
+//	                     independent reference encoder (reftree.go)
 //	B. accept=>canonical every accepted hostile input is canonical RLP and re-encodes to itself; no panic
 //	C. allocation        decoding size-lying inputs allocates O(len(input))
 //	D. handlers          ucon MessageHandler.HandleMsg and staking TxConverter.ApplyMessage
@@ -715,7 +718,8 @@ func (c *checker) phaseAlloc(g *grammar) {
 // Run is the check entry point.
 func Run(r *mc.Run) {
 	r.Level = "exploration"
-	r.Rule = "A (round trip): per wire/disk type, every value of the full product of per-field boundary domains (structs with <= 6 fields; domains trimmed to a prefix only when the product exceeds the tier cap) plus, around an all-zero and an all-distinct baseline, every single-field and every field-pair variation; " +
+	r.Rule = "S (container sizes, single-threaded, GOMAXPROCS 1): per wire/disk type holding a variable-length collection or byte string, every size of {0,1,2,255,256,257,300,1023,1024,1025} plus the two sizes around every point where the payload of the collection or of a list enclosing it crosses 56 / 256 / 65536 bytes (nested collections: every pair (n,m) of the base sizes with n*m under a per-type bound), each value encoded through every encoder exit (EncodeToBytes of pointer / of value, Encode(io.Writer), own EncodeRLP, EncodeToReader read at once / 7 bytes at a time / after another encoding, wrapped in an outer list) under every buffer history (new pooled buffer after two GC cycles, buffer that just encoded the same value, new buffer warmed by a small value, buffer that encoded the largest value of the type); every encoding must equal the encoding computed by an independent reference encoder from the type's field list, parse strictly, have the announced size, and decode (DecodeBytes, size-limited Stream, Decode from a reader) to the value; " +
+		"A (round trip): per wire/disk type, every value of the full product of per-field boundary domains (structs with <= 6 fields; domains trimmed to a prefix only when the product exceeds the tier cap) plus, around an all-zero and an all-distinct baseline, every single-field and every field-pair variation; " +
 		"B (accept => canonical): every input of a bounded RLP shape grammar (depth <= 3, <= 3 items per list, every header form incl. wrong/huge/non-minimal declared lengths, leading-zero integers), every header-form rewrite / structural edit of every item of every baseline encoding, and every single-byte mutation of every baseline encoding (every byte x every value for small encodings, 5 values per byte for large), each fed to every covered type; " +
 		"C (allocation): all size-lying inputs decoded single-threaded with MemStats.TotalAlloc deltas; D (handlers): the same payload families wrapped in signed ucon envelopes / staking messages and driven through MessageHandler.HandleMsg and TxConverter.ApplyMessage (+ take-effect for accepted messages). " +
 		"A case is non-trivial when the value encodes (A) or the hostile input is ACCEPTED by the decoder and is not the seed itself (B); distinct = distinct encodings (A) + distinct accepted hostile inputs per type (B) + distinct handler outcomes (D)"
@@ -729,7 +733,15 @@ func Run(r *mc.Run) {
 	r.Assume("the p2p packet types of you/protocol.go are covered through field-for-field mirrored structs (package you cannot be linked: its quic-go dependency panics at init under the installed Go); their RLP codec is derived from the struct shape alone")
 	r.Assume("HandleMsg runs the real MessageHandler with a stub validator lookup (every sender is an online chamber validator) and stub consensus callbacks that only record being reached; ApplyMessage runs on a committed fixture state (two validators, one delegation) under the YouV5 test-case parameters")
 	r.Assume("take-effect entry is driven only with messages ApplyMessage accepted in the same state (production replays only recorded, previously accepted transactions)")
+	r.Assume("container-size phase: which pooled encoder buffer a call gets is controlled from outside only (runtime.GC twice empties the sync.Pool; GOMAXPROCS(1) makes the pool a single slot); elements are generated from their index with the public constructors; the reference tree of a type with a custom codec is written by hand from its documented wire format")
 	c := newChecker(r)
+	ts := time.Now()
+	sizeBudget := 75 * time.Second
+	if !r.Quick() {
+		sizeBudget = 20 * time.Minute
+	}
+	c.phaseSizes(ts.Add(sizeBudget))
+	r.SetExtra("phase_S_seconds", time.Since(ts).Seconds())
 	t0 := time.Now()
 	c.phaseRoundTrip()
 	r.SetExtra("phase_A_seconds", time.Since(t0).Seconds())
@@ -824,6 +836,8 @@ func Replay(r *mc.Run, v *mc.Violation) {
 		if d > 64*uint64(len(data))+allocPerInput {
 			c.report(v.Sig, "", in)
 		}
+	case "sizes":
+		c.replaySizes(in)
 	case "handlemsg", "staking":
 		c.replayHandler(in, data)
 	}
